@@ -3,13 +3,15 @@ package main
 import (
 	"fmt"
 	"go/token"
+	"go/types"
+	"strings"
 
 	"golang.org/x/tools/go/ssa"
 )
 
 func init() {
 	register("C12", []string{".", "./record", "./objstorage/objstorageprovider", "./internal/manifest", "./vfs/atomicfs"}, runC12)
-	propExplain["C12"] = "Decides ordering clauses of C12: in DB.flush1 the flushed memtables are removed from the queue, the read state is refreshed and the flushed channels are closed only through the nil-error edge of the MANIFEST update, which itself follows the (synced) write of the tables; Flush waits for the flushed channel captured before the memtable rotation; LogWriter.Close waits for the flush loop and syncs before closing; the object provider publishes as 'synced' only a change counter it captured BEFORE the directory sync started (a creation racing with the sync must be synced again). Shares C10.O3 (tables synced before named), C22 (MANIFEST protocol) and C10.E1 (no error of a durability call — closing the old WAL at a rotation, syncing, creating the next log — is dropped). Does not cover NoSyncOnClose configurations."
+	propExplain["C12"] = "Decides ordering clauses of C12: in DB.flush1 the flushed memtables are removed from the queue, the read state is refreshed and the flushed channels are closed only through the nil-error edge of the MANIFEST update, which itself follows the (synced) write of the tables; Flush waits for the flushed channel captured before the memtable rotation; LogWriter.Close waits for the flush loop and syncs before closing; the object provider publishes as 'synced' only a change counter it captured BEFORE the directory sync started (a creation racing with the sync must be synced again). Shares C10.O3 (tables synced before named), C22 (MANIFEST protocol) and C10.E1 (no error of a durability call — closing the old WAL at a rotation, syncing, creating the next log — is dropped). Does not cover NoSyncOnClose configurations. (V1 gate) the object provider advances a tier's directory-sync watermark only through the nil-error edge of that tier's directory Sync."
 }
 
 func runC12(c *Ctx) {
@@ -121,10 +123,48 @@ func c12SyncWatermark(c *Ctx, rule string) {
 	}
 	c.noteFlow(fl)
 	n := 0
+	// the values published as "last synced": stored directly, or handed to a helper of the
+	// provider that stores one of its parameters (followed back to the argument here)
+	type published struct {
+		val ssa.Value
+		at  ssa.Instruction
+	}
+	var pubs []published
 	for _, in := range instrs(fn, StorePath("objChangeCounterLastSync")) {
+		pubs = append(pubs, published{in.(*ssa.Store).Val, in})
+	}
+	if len(pubs) == 0 {
+		for _, b := range fn.Blocks {
+			for _, in := range b.Instrs {
+				call, ok := in.(*ssa.Call)
+				if !ok {
+					continue
+				}
+				cal := call.Common().StaticCallee()
+				if cal == nil || !inModule(cal) || len(cal.Blocks) == 0 {
+					continue
+				}
+				for _, sin := range instrs(cal, StorePath("objChangeCounterLastSync")) {
+					params := derivesFrom(sin.(*ssa.Store).Val, func(v ssa.Value) bool { _, isP := v.(*ssa.Parameter); return isP }, 4)
+					if len(params) == 0 {
+						pubs = append(pubs, published{sin.(*ssa.Store).Val, sin})
+						continue
+					}
+					for _, pv := range params {
+						for i, fp := range cal.Params {
+							if ssa.Value(fp) == pv && i < len(call.Common().Args) {
+								pubs = append(pubs, published{call.Common().Args[i], in})
+							}
+						}
+					}
+				}
+			}
+		}
+	}
+	for _, pb := range pubs {
 		n++
-		st := in.(*ssa.Store)
-		leaves := derivesFrom(st.Val, isCounterRead, 4)
+		in := pb.at
+		leaves := derivesFrom(pb.val, isCounterRead, 4)
 		ok := len(leaves) > 0
 		detail := ""
 		if !ok {
@@ -170,6 +210,79 @@ func c12SyncWatermark(c *Ctx, rule string) {
 	}
 	if n == 0 {
 		c.Unresolved(rule, "store to objChangeCounterLastSync not found in localSync")
+	}
+	// Gate (added after seed C43-c): a tier's watermark advances only through the nil-error edge of
+	// THAT tier's directory sync. A watermark claimed before (or regardless of) the sync makes the
+	// next Sync() of a concurrent creator return without syncing anything.
+	tierDir := map[string]string{"hotTier": "recv.local.fsDir", "coldTier": "recv.local.coldTier.fsDir"}
+	tierOf := func(in ssa.Instruction) string {
+		pth := pathOf(in.(*ssa.Store).Addr)
+		for t := range tierDir {
+			if strings.Contains(pth, "."+t+".") {
+				return t
+			}
+		}
+		return ""
+	}
+	gate := NewFlow(c.P)
+	for t, d := range tierDir {
+		gate.Ok("ok:dirsync:"+t, MethodOn("Sync", d))
+	}
+	gate.MaxDepth = 0
+	gres := gate.Analyze(fn, emptyState())
+	c.noteFlow(gate)
+	ng := 0
+	for _, in := range instrs(fn, StorePath("objChangeCounterLastSync")) {
+		t := tierOf(in)
+		if t == "" {
+			c.Unresolved(rule, "a store to objChangeCounterLastSync is not under hotTier/coldTier")
+			continue
+		}
+		only := Pred("store "+t+".objChangeCounterLastSync", func(i2 ssa.Instruction) bool { return i2 == in })
+		ng += c.Require(rule, gres, only, "the "+t+" watermark advances only after that tier's directory sync returned nil", []string{"ok:dirsync:" + t})
+	}
+	if ng == 0 {
+		// stores moved into a helper: the helper's store is guarded by boolean parameters; what
+		// those booleans stand for is decided at the call site
+		for _, b := range fn.Blocks {
+			for _, in := range b.Instrs {
+				call, ok := in.(*ssa.Call)
+				if !ok {
+					continue
+				}
+				cal := call.Common().StaticCallee()
+				if cal == nil || !inModule(cal) || len(cal.Blocks) == 0 || len(instrs(cal, StorePath("objChangeCounterLastSync"))) == 0 {
+					continue
+				}
+				hf := NewFlow(c.P)
+				for i, prm := range cal.Params {
+					if bt, isB := prm.Type().Underlying().(*types.Basic); isB && bt.Kind() == types.Bool {
+						prm := prm
+						hf.Edge(fmt.Sprintf("param-true:%d", i), func(v ssa.Value) (bool, bool) { return v == ssa.Value(prm), false })
+					}
+				}
+				hf.MaxDepth = 0
+				hres := hf.Analyze(cal, emptyState())
+				c.noteFlow(hf)
+				for _, sin := range instrs(cal, StorePath("objChangeCounterLastSync")) {
+					t := tierOf(sin)
+					st := gres.stateBefore(call).clone()
+					hs := hres.stateBefore(sin)
+					for i := range cal.Params {
+						if hs.has(fmt.Sprintf("param-true:%d", i)) && i < len(call.Common().Args) {
+							gres.condFacts(call.Common().Args[i], true, &st)
+						}
+					}
+					ok := t != "" && st.has("ok:dirsync:"+t)
+					ng++
+					c.Ob(rule, cal, "the "+t+" watermark advances only after that tier's directory sync returned nil", c.P.Pos(sin.Pos()), ok,
+						map[bool]string{true: "", false: "the helper's store is reachable from localSync without a successful directory sync of that tier"}[ok])
+				}
+			}
+		}
+	}
+	if ng == 0 {
+		c.Unresolved(rule, "no watermark store found to gate in localSync or its helper")
 	}
 }
 
